@@ -6,9 +6,10 @@
    rfc8037, rfc8812 — for ALL tokens, keys, key sets, allowed-algorithm lists
    and ALL behaviours of json.loads and of the cryptographic primitives
    (Section variables).  Algorithm data: Gen.Tables.jws_alg_table. *)
-From Model Require Import Jws.
+From Model Require Import Json.
+From Model Require Import Jws JwsJson.
 From Gen Require Import Tables.
-From Proofs Require Import B64Proofs JwsProofs C01Proofs.
+From Proofs Require Import B64Proofs JsonProofs JwsProofs C01Proofs C03Proofs JwsJsonProofs.
 Open Scope N_scope.
 
 Section C01.
@@ -136,6 +137,21 @@ Section C01.
   Proof. exact (json97_sound_fixed json_loads mac pk_verify ec_verify). Qed.
 End C01.
 
+(* the same with json.loads instantiated by the Gallina JSON parser (model/Json.v):
+   no JSON oracle is left; the header returned is what that parser reads from the
+   octets of the received header segment *)
+Theorem c01_compact_sound_json_model :
+  forall (mac : string -> N -> bytes -> res bytes)
+         (pk_verify : jws_alg_row -> N -> bytes -> bytes -> res bool)
+         (ec_verify : jws_alg_row -> N -> bytes -> Z -> Z -> res bool) tok src algs o,
+    deserialize_compact g_loads mac pk_verify ec_verify tok src algs = Ok o ->
+    tok = co_hseg o ++ 46 :: co_pseg o ++ 46 :: co_sseg o /\
+    (exists raw, b64d (co_hseg o) = Ok raw /\ Json.json_loads raw = POk (co_protected o)) /\
+    b64d (co_pseg o) = Ok (co_payload o) /\
+    verified mac pk_verify ec_verify (reg15 algs) src (co_protected o)
+             (co_hseg o ++ 46 :: co_pseg o) (co_sseg o).
+Proof. exact compact_sound_json_model. Qed.
+
 (* the model of rfc7797/json.py BEFORE fix01 violates it: in a world where a
    flattened JWS with protected header {"alg":"HS256"} and payload "hello" is
    valid, adding the unprotected header {"b64": false, "crit": ["b64"]} makes
@@ -234,6 +250,7 @@ Example c01_general_empty_rejected :
 Proof. vm_compute. reflexivity. Qed.
 
 Print Assumptions c01_compact_sound.
+Print Assumptions c01_compact_sound_json_model.
 Print Assumptions c01_flat_sound.
 Print Assumptions c01_general_sound.
 Print Assumptions c01_none_never_verifies.
